@@ -151,7 +151,7 @@ func enumScenarios(seed int64) []Scenario {
 					p1 = append(p1, PushSpec{Lane: i % ls, Task: TaskSpec{Kind: "instant"}})
 					p2 = append(p2, PushSpec{Lane: (i + 1) % ls, Task: TaskSpec{Kind: "yield"}})
 				}
-				out = append(out, Scenario{LaneSize: ls, QueueSize: qs, TimeoutMs: 3600000, Pins: seq(ls), Producers: [][]PushSpec{p1, p2}, Cancel: cp, PostPush: 1})
+				out = append(out, Scenario{LaneSize: ls, QueueSize: qs, TimeoutMs: 3600000, Pins: seq(ls), Producers: [][]PushSpec{p1, p2}, Cancel: cp, PostPush: 1, Waiters: 1 + (hit+len(pt))%4})
 				// shape 3: timeouts against a full lane
 				var p3 []PushSpec
 				for i := 0; i < qs+4; i++ {
@@ -171,6 +171,9 @@ func randScenario(r *rand.Rand) Scenario {
 	ls := []int{1, 2, 3, 4, 8}[r.Intn(5)]
 	qs := []int{0, 1, 2, 5}[r.Intn(4)]
 	sc := Scenario{LaneSize: ls, QueueSize: qs, TimeoutMs: 3600000, PostPush: r.Intn(3), Pollers: r.Intn(3), Perturb: r.Intn(2) == 0, Seed: r.Int63()}
+	if r.Intn(3) == 0 {
+		sc.Waiters = 2 + r.Intn(7)
+	}
 	if r.Intn(4) == 0 {
 		sc.TimeoutMs = 1
 	}
@@ -206,7 +209,7 @@ func randScenario(r *rand.Rand) Scenario {
 			case x < 14:
 				ps.Task.Kind = "sleep"
 			case x < 17:
-				ps.Task = TaskSpec{Kind: "panic", Panic: []string{"string", "error", "int", "struct", "pointer"}[r.Intn(5)]}
+				ps.Task = TaskSpec{Kind: "panic", Panic: []string{"string", "error", "int", "struct", "pointer", "slice", "map"}[r.Intn(7)]}
 			case x < 19:
 				ps.Task.Kind = "gate"
 			default:
@@ -327,9 +330,48 @@ func rushScenarios(seed int64) []Scenario {
 					}
 					prods = append(prods, pushes)
 				}
-				out = append(out, Scenario{LaneSize: ls, QueueSize: qs, TimeoutMs: 3600000, Producers: prods, Cancel: CancelPlan{Kind: "none"}, Rush: true, PostPush: rep % 2, Perturb: rep%3 == 0})
+				out = append(out, Scenario{LaneSize: ls, QueueSize: qs, TimeoutMs: 3600000, Producers: prods, Cancel: CancelPlan{Kind: "none"}, Rush: true, PostPush: rep % 2, Perturb: rep%3 == 0, Waiters: 1 + rep%3})
 			}
 		}
+	}
+	// queued tasks at the cancel + many concurrent Wait() callers: all workers pinned, queues full,
+	// then cancel (final) and 8 waiters
+	for _, cfg := range configs {
+		ls, qs := cfg[0], cfg[1]
+		if qs == 0 {
+			continue
+		}
+		var pushes []PushSpec
+		for i := 0; i < ls*qs; i++ {
+			pushes = append(pushes, PushSpec{Lane: i % ls, Task: TaskSpec{Kind: "instant"}})
+		}
+		for rep := 0; rep < 6; rep++ {
+			out = append(out, Scenario{LaneSize: ls, QueueSize: qs, TimeoutMs: 3600000, Pins: seq(ls), Producers: [][]PushSpec{pushes}, Cancel: CancelPlan{Kind: "external"}, PostPush: 0, Waiters: 8})
+		}
+	}
+	for _, cfg := range [][2]int{{4, 2}, {4, 5}, {8, 2}, {8, 5}, {2, 5}} {
+		ls, qs := cfg[0], cfg[1]
+		var pushes []PushSpec
+		for i := 0; i < ls*qs; i++ {
+			pushes = append(pushes, PushSpec{Lane: i % ls, Task: TaskSpec{Kind: "instant"}})
+		}
+		for rep := 0; rep < 25; rep++ {
+			out = append(out, Scenario{LaneSize: ls, QueueSize: qs, TimeoutMs: 3600000, Pins: seq(ls), Producers: [][]PushSpec{pushes}, Cancel: CancelPlan{Kind: "external"}, PostPush: 0, Waiters: 8, EarlyWait: true})
+		}
+	}
+	// nil tasks: a nil Task is accepted like any other; the worker that takes it recovers the nil
+	// dereference and must keep serving: tasks pushed afterwards still start
+	for _, cfg := range configs {
+		ls, qs := cfg[0], cfg[1]
+		var warm []PushSpec
+		for i := 0; i < 2*ls; i++ {
+			warm = append(warm, PushSpec{Lane: i % ls, Task: TaskSpec{Kind: "nil"}})
+		}
+		var after []PushSpec
+		for i := 0; i < 2*ls+qs; i++ {
+			after = append(after, PushSpec{Lane: i % ls, Task: TaskSpec{Kind: kinds[i%3]}})
+		}
+		out = append(out, Scenario{LaneSize: ls, QueueSize: qs, TimeoutMs: 3600000, Warmup: warm, Producers: [][]PushSpec{after}, Cancel: CancelPlan{Kind: "none"}, PostPush: 1})
 	}
 	for i := range out {
 		out[i].Seed = seed + int64(i)
@@ -341,6 +383,7 @@ func rushScenarios(seed int64) []Scenario {
 func statusScenarios(seed int64) []Scenario {
 	var out []Scenario
 	ptypes := []string{"string", "error", "int", "struct", "pointer"}
+	utypes := []string{"slice", "map", "slice", "slice", "map"} // uncomparable dynamic types, repeated back to back
 	for _, ls := range []int{1, 2, 3, 4, 8} {
 		for _, qs := range []int{0, 1, 2, 5} {
 			capacity := ls * (qs + 1)
@@ -365,6 +408,13 @@ func statusScenarios(seed int64) []Scenario {
 				p2 = append(p2, PushSpec{Lane: (i + 1) % ls, Task: TaskSpec{Kind: kinds[i%3]}})
 			}
 			out = append(out, Scenario{LaneSize: ls, QueueSize: qs, TimeoutMs: 3600000, Producers: [][]PushSpec{p1, p2}, Cancel: CancelPlan{Kind: "none"}, Pollers: 3, PostPush: 1, Perturb: true})
+			// consecutive panics with values of the same uncomparable dynamic type on every lane
+			var pu []PushSpec
+			for i := 0; i < 4*ls; i++ {
+				pu = append(pu, PushSpec{Lane: i % ls, Task: TaskSpec{Kind: "panic", Panic: utypes[(i/ls)%5]}})
+			}
+			pu = append(pu, PushSpec{Lane: 0, Task: TaskSpec{Kind: "instant"}})
+			out = append(out, Scenario{LaneSize: ls, QueueSize: qs, TimeoutMs: 3600000, Producers: [][]PushSpec{pu}, Cancel: CancelPlan{Kind: "none"}, Pollers: 1, PostPush: 1})
 			// simultaneous panics: one gated panicking task per worker, different dynamic types, released at once
 			var gp []PushSpec
 			for i := 0; i < ls; i++ {
@@ -397,6 +447,12 @@ func shapeKey(s Scenario) string {
 	}
 	if s.Rush {
 		extra += " rush"
+	}
+	if s.Waiters > 1 {
+		extra += fmt.Sprintf(" waiters%d", s.Waiters)
+		if s.EarlyWait {
+			extra += "early"
+		}
 	}
 	return fmt.Sprintf("L%dQ%d t%d pins%d prod%d n%d %v cancel=%s/%s#%d post%d%s", s.LaneSize, s.QueueSize, s.TimeoutMs, len(s.Pins), len(s.Producers), n, k, s.Cancel.Kind, s.Cancel.Point, s.Cancel.Hit, s.PostPush, extra)
 }
